@@ -4,7 +4,10 @@
 use crate::{Label, Persistence, Sodg};
 use anyhow::{anyhow, Result};
 use log::debug;
+#[cfg(not(feature = "verif"))]
 use std::collections::{HashMap, HashSet};
+#[cfg(feature = "verif")]
+use crate::verif::collections::{HashMap, HashSet};
 
 impl<const N: usize> Sodg<N> {
     /// Merge another graph into the current one.
